@@ -454,6 +454,8 @@ def main(argv=None):
         print("NOTE: %s is analysed as %s (same file, same signature, same callees: recognised as a renamed function)" % (new_id, known))
     for fid, order in sorted((ctx.facts.get("_reordered") or {}).items()):
         print("NOTE: the parameters of %s are written in the order (%s); analysed in the order the rules know" % (fid, ", ".join(order)))
+    for new_name, frozen in sorted((ctx.facts.get("_fields") or {}).items()):
+        print("NOTE: the private field %s is read as `%s` (same struct, position and type: recognised as a renamed field)" % (new_name, frozen))
     for rule, why in undecided:
         print("ANCHOR-MISSING property=%s rule=%s: %s" % (prop, rule, why))
     if violations:
